@@ -26,7 +26,7 @@ use crate::{
 
 type P = RistrettoPoint;
 
-const OPS: [&str; 13] = [
+const OPS: [&str; 15] = [
     "opening-new-drop",
     "opening-clone-drop",
     "witness-init-drop",
@@ -39,6 +39,8 @@ const OPS: [&str; 13] = [
     "prove-seeded",
     "prove-refused",
     "verify-recover",
+    "verify-recover-then-fail",
+    "statement-on-heap-drop",
     "commit",
 ];
 
@@ -268,6 +270,63 @@ fn op_body(cfg: Cfg, op: &'static str, res: &mut CaseResult) -> Option<()> {
                     }
                 }
             },
+            "verify-recover-then-fail" => {
+                // a mask is recovered for the first member, then the call fails: on a later malformed member, on a later
+                // member that does not verify, and on a wrong transcript for the member itself
+                if cfg.m != 1 {
+                    res.outcome = "not-applicable".into();
+                    return Some(());
+                }
+                let built = build_cached::<P>(&cfg, wit).unwrap();
+                let proof = lib_prove(&built, &CTX_A, &mut HRng::chacha(7)).unwrap();
+                let comp_wit = Wit::default_for(&cfg);
+                let comp = build_cached::<P>(&cfg, &comp_wit).unwrap();
+                let comp_proof = lib_prove(&comp, &CTX_A, &mut HRng::chacha(8)).unwrap();
+                let mut variants: Vec<(&str, Vec<RangeStatement<P>>, Vec<tari_bulletproofs_plus::range_proof::RangeProof<P>>, Vec<Ctx>)> = Vec::new();
+                variants.push((
+                    "second-member-fails-final-check",
+                    vec![built.statement.clone(), comp.statement.clone()],
+                    vec![P::proof_clone(&proof), P::proof_clone(&comp_proof)],
+                    vec![CTX_A, contexts()[1]],
+                ));
+                if let Some(mut rp) = ref_proof_of(&comp_proof).filter(|r| !r.l.is_empty()) {
+                    rp.l[0] = [0xffu8; 32];
+                    let bad = P::from_bytes(&crate::refbp::ref_encode(&rp)).unwrap();
+                    variants.push(("second-member-undecodable", vec![built.statement.clone(), comp.statement.clone()], vec![P::proof_clone(&proof), bad], vec![CTX_A, CTX_A]));
+                }
+                variants.push(("own-transcript-wrong", vec![built.statement.clone()], vec![P::proof_clone(&proof)], vec![contexts()[2]]));
+                for (name, sts, proofs, ctxs) in variants {
+                    for mode in [VerifyAction::RecoverAndVerify, VerifyAction::RecoverOnly] {
+                        let mut ts: Vec<merlin::Transcript> = ctxs.iter().map(|c| c.transcript()).collect();
+                        allocmon::arm();
+                        let r = P::verify(&mut ts, &sts, &proofs, mode);
+                        let failed = r.is_err();
+                        drop(r);
+                        report(res, &sec, &format!("verify-recover-then-fail/{}/{}", name, mode_name(mode)), allocmon::disarm());
+                        if !failed && mode == VerifyAction::RecoverAndVerify {
+                            res.machinery_error(format!("variant {} was expected to fail in RecoverAndVerify", name));
+                        }
+                    }
+                }
+            },
+            "statement-on-heap-drop" => {
+                // seeded statements living on the heap (boxed, and in a vector as handed to verify_batch)
+                if wit.seed.is_none() {
+                    res.outcome = "not-applicable".into();
+                    return Some(());
+                }
+                let params = params_cached::<P>(&cfg);
+                let cs = commitments_for(params.pc_gens(), wit).unwrap();
+                let st = P::statement(params, cs, wit.promises.clone(), wit.seed).unwrap();
+                allocmon::arm();
+                let boxed = Box::new(st.clone());
+                let mut v: Vec<RangeStatement<P>> = Vec::with_capacity(2);
+                v.push(st.clone());
+                v.push(st);
+                drop(boxed);
+                drop(v);
+                report(res, &sec, op, allocmon::disarm());
+            },
             "commit" => {
                 let pc = P::pc_gens(cfg.d);
                 allocmon::arm();
@@ -308,10 +367,11 @@ fn self_test() -> Result<u64, String> {
 }
 
 pub fn run(rep: &mut Report) {
-    rep.rule = "configurations (quick lattice with aggregation <= 2, plus aggregation 8 and degrees 3..5 at 8 bits) x 13 operations \
+    rep.rule = "configurations (quick lattice with aggregation <= 2, plus aggregation 8 and degrees 3..5 at 8 bits) x 15 operations \
                 {opening new/clone+drop, witness init/refused/clone+drop, mask assign+drop, seeded statement init+clone+drop, inline \
                 seed after drop_in_place, prove seeded/unseeded + drop, each early-refusal path of the prover, recovering verification in \
-                both modes + drop of the masks, commit}; every block released while the operation runs (and every pre-realloc block) is \
+                both modes + drop of the masks, recovering verification that fails after the mask was recovered (later member fails / is \
+                malformed / wrong transcript), seeded statements dropped while on the heap, commit}; every block released while the operation runs (and every pre-realloc block) is \
                 scanned for the 32-byte encodings of every blinding factor / mask component / seed and the 8-byte encoding of a \
                 distinctive 64-bit value; distinct = (configuration, operation), non-trivial = at least one free inspected"
         .into();
